@@ -27,6 +27,7 @@ fn handle(words: &[&str]) -> String {
         Some("lcd_rs") => lcd_cmd::run(&words[1..]),
         Some("kbd_rs") => kbd_cmd::run(&words[1..]),
         Some("sched") => sched_cmd::run(&words[1..]),
+        Some("sched2") => sched_cmd::run2(&words[1..]),
         Some("mem_rs") => mem_cmd::run(&words[1..]),
         Some("exec1") => exec_cmd::run(&words[1..]),
         Some("irq") => irq_cmd::run(&words[1..]),
